@@ -1,11 +1,11 @@
 #!/bin/bash
-# usage: seedtest.sh <ID> [tier]  -- apply /verif/seeded/<ID>/patch.diff to /repo, run the property's check, undo.
-id=$1; tier=${2:-quick}
+# usage: seedtest.sh <seed dir name under /verif/seeded> [tier] [check id]  -- apply the patch to /repo, run the check, undo.
+sd=$1; tier=${2:-quick}; id=${3:-${sd%%_*}}
 cd /repo || exit 2
 if [ -n "$(git status --porcelain -- src)" ]; then echo "repo dirty"; exit 2; fi
-git apply /verif/seeded/$id/patch.diff || { echo "patch does not apply"; exit 2; }
+git apply /verif/seeded/$sd/patch.diff || { echo "patch does not apply"; exit 2; }
 cd /verif
-/venv/bin/python tools/check.py ${3:-$id} --tier $tier 2>&1 | tail -4
+/venv/bin/python tools/check.py $id --tier $tier 2>&1 | tail -4
 rc=${PIPESTATUS[0]}
 git -C /repo checkout -- .
 exit $rc
